@@ -14,10 +14,71 @@
    operations, each naming its arguments by position in the growing pool of meshes. *)
 From Coq Require Import List NArith ZArith Bool Arith.
 From PF Require Import Gen.Closed Gen.Sphere Gen.Hemisphere Gen.Cylinder Gen.Cube.
-From PF Require Import Mesh.Pure Mesh.PureLemmas Mesh.PureProofs Mesh.GenWf Mesh.GenIdx Mesh.GenIdxProofs.
+From PF Require Import Mesh.Pure Mesh.PureLemmas Mesh.PureProofs Mesh.GenWf Mesh.GenIdx Mesh.GenIdxProofs Mesh.GenCompose.
 Import ListNotations.
 Close Scope N_scope.
 Open Scope nat_scope.
+
+(* ================================================================ THE PROPERTY, stated once
+   "Every mesh returned by a geometry generator and every mesh returned by a mesh operation applied to
+   well-formed meshes is well-formed [wf: one common attribute length, every index in range, index count
+   fitting the topology]. An operation either returns such a mesh or reports failure; it never returns
+   a mesh whose accessors would read out of range."
+
+   (1) operations: every operation, every well-formed input, every parameter: results all wf or a declared
+       failure, never a crash;  (2) sequences of operations (any history over a growing pool);
+   (3) wf means accessors stay in range;  (4) generators, for EVERY parameter the generator accepts:
+       UV sphere (welded / unwelded), hemisphere, cylinder, cube (welded / six quads) - index formulas of
+       Gen/*.v (C18); circle and cone (fan), quad, extrude.polygon/Polygon/Circle (tube), extrude.Line
+       (ribbon), extrude.Shape/ClosedShape (one ring per path point, also for collinear or repeated path
+       points) - index formulas of Mesh/GenIdx.v; anything assembled with Append from well-formed parts
+       and repeat.Mesh over any transform list (repeat.Circle/Line/Spline/FibonacciSphere).
+       Every index formula is compared with the implementation's index list on every run (CGenI, C18).
+   Marching-cubes and Bowyer-Watson outputs are not index formulas of their parameters: they are judged on
+   every run by the verified test wfb (clause 0); their structure is C09's (grid_no_degenerate) and C20's
+   (bw_vertex_identity: the triangles name input points) business. *)
+Theorem C02_wellformedness_closed :
+  (* 0 *) (forall m, wfb m = true <-> wf m) /\
+  (* 1 *) (forall o ins, Forall wf ins -> op_pre o ins = true ->
+             match step o ins with Ok ms => Forall wf ms | Declared => True | Crash => False end) /\
+  (* 2 *) (forall h pool, Forall wf pool -> Forall wf (run h pool)) /\
+  (* 3 *) (forall m, wf m -> forall i a, In i (indices m) -> In a (attrs m) -> i < length (snd a)) /\
+  (* 4 *) (forall ks mats vals, ssortedb ks = true -> ks <> [] ->
+     (forall r c, (2 <= r)%N -> (1 <= c)%N -> wf (gen_mesh (sphere_nverts r c) (sphere_idx r c) ks mats vals)) /\
+     (forall r c, (2 <= r)%N -> (1 <= c)%N -> wf (gen_mesh (sphereU_nverts r c) (sphereU_idx r c) ks mats vals)) /\
+     (forall r c, (2 <= r)%N -> (1 <= c)%N -> wf (gen_mesh (hemi_nverts r c) (hemi_idx r c) ks mats vals)) /\
+     (forall n, (1 <= n)%N -> wf (gen_mesh (cyl_nverts n) (cyl_idx n) ks mats vals)) /\
+     wf (gen_mesh cubeW_nverts cubeW_idx ks mats vals) /\ wf (gen_mesh cubeQ_nverts cubeQ_idx ks mats vals) /\
+     (forall n, 1 <= n -> wf (gen_mesh_nat (fan_nverts n) (fan_idx n) ks mats vals)) /\
+     wf (gen_mesh_nat quad_nverts quad_idx ks mats vals) /\
+     (forall flip sides points, wf (gen_mesh_nat (tube_nverts sides points) (tube_idx flip sides points) ks mats vals)) /\
+     (forall points, wf (gen_mesh_nat (ribbon_nverts points) (ribbon_idx points) ks mats vals)) /\
+     (forall sides points closed, 1 <= points ->
+        wf (gen_mesh_nat (shape_nverts sides points) (shape_idx sides points closed) ks mats vals))) /\
+  (* 4, composed *) (forall ms acc, wf acc -> Forall wf ms ->
+     match append_all acc ms with Ok rs => Forall wf rs | Declared => True | Crash => False end) /\
+  (forall pos base ts, wf base ->
+     match repeat_mesh pos base ts with Ok ms => Forall wf ms | Declared => True | Crash => False end).
+Proof.
+  split; [exact wfb_wf|]. split; [exact step_wf|]. split; [exact run_wf|].
+  split; [exact PureProofs.wf_accessors_in_range|].
+  split; [|split; [exact append_all_wf|exact repeat_mesh_wf]].
+  intros ks mats vals Hs Hk.
+  split; [intros; apply sphere_mesh_wf; assumption|].
+  split; [intros; apply sphereU_mesh_wf; assumption|].
+  split; [intros; apply hemi_mesh_wf; assumption|].
+  split; [intros; apply cyl_mesh_wf; assumption|].
+  split; [apply (cube_mesh_wf ks mats vals Hs Hk)|].
+  split; [apply (cube_mesh_wf ks mats vals Hs Hk)|].
+  split; [intros; apply fan_mesh_wf; assumption|].
+  split; [apply quad_mesh_wf; assumption|].
+  split; [intros; apply tube_mesh_wf; assumption|].
+  split; [intros; apply ribbon_mesh_wf; assumption|].
+  intros; apply shape_mesh_wf; assumption.
+Qed.
+Print Assumptions C02_wellformedness_closed.
+
+(* ================================================================ the clauses one by one *)
 
 (* the executable test applied to every mesh the implementation returns decides well-formedness *)
 Theorem wfb_decides_wf : forall m, wfb m = true <-> wf m.
@@ -91,12 +152,11 @@ Theorem repeat_wf : forall pos m ts, wf m ->
 Proof. exact repeat_mesh_wf. Qed.
 Print Assumptions repeat_wf.
 
-(* generators (partial: the primitives whose index formulas are modelled in Gen/*.v and, below, in
-   Mesh/GenIdx.v; extrude.Line/Shape, marching cubes, triangulation and the repeat.* transform
-   generators are judged by wfb on every implementation output only — repeat.Mesh itself is repeat_wf).
+(* generators: the primitives whose index formulas are modelled in Gen/*.v (C18); the others follow below
+   (Mesh/GenIdx.v, Mesh/GenCompose.v).  Marching cubes and triangulation: wfb on every output only.
    [gen_mesh nv idx ks mats vals]: triangle mesh with vertex count nv, index list idx and one array
    of length nv under every key of ks.  For EVERY accepted count: *)
-Theorem wf_generators_partial : forall ks mats vals, ssortedb ks = true -> ks <> [] ->
+Theorem wf_generators_primitives : forall ks mats vals, ssortedb ks = true -> ks <> [] ->
   (forall r c, (2 <= r)%N -> (1 <= c)%N -> wf (gen_mesh (sphere_nverts r c) (sphere_idx r c) ks mats vals)) /\
   (forall r c, (2 <= r)%N -> (1 <= c)%N -> wf (gen_mesh (sphereU_nverts r c) (sphereU_idx r c) ks mats vals)) /\
   (forall r c, (2 <= r)%N -> (1 <= c)%N -> wf (gen_mesh (hemi_nverts r c) (hemi_idx r c) ks mats vals)) /\
@@ -112,7 +172,7 @@ Proof.
   - apply (cube_mesh_wf ks mats vals Hs Hk).
   - apply (cube_mesh_wf ks mats vals Hs Hk).
 Qed.
-Print Assumptions wf_generators_partial.
+Print Assumptions wf_generators_primitives.
 
 (* the fan of primitives.Circle (sides >= 1) and primitives.Cone (sides >= 3), and the tube of
    extrude.polygon / extrude.Polygon / extrude.Circle.Extrude for EVERY side count, path length and
@@ -126,6 +186,31 @@ Proof.
   - apply tube_mesh_wf; assumption.
 Qed.
 Print Assumptions wf_generators_fan_tube.
+
+(* quad, extrude.Line (ribbon), extrude.Shape / ClosedShape (every path of >= 1 point, every stencil size,
+   open or closed; collinear and repeated path points get their ring like any other) *)
+Theorem wf_generators_quad_ribbon_shape : forall ks mats vals, ssortedb ks = true -> ks <> [] ->
+  wf (gen_mesh_nat quad_nverts quad_idx ks mats vals) /\
+  (forall points, wf (gen_mesh_nat (ribbon_nverts points) (ribbon_idx points) ks mats vals)) /\
+  (forall sides points closed, 1 <= points ->
+     wf (gen_mesh_nat (shape_nverts sides points) (shape_idx sides points closed) ks mats vals)).
+Proof.
+  intros ks mats vals Hs Hk. split; [apply quad_mesh_wf; assumption|].
+  split; intros; [apply ribbon_mesh_wf|apply shape_mesh_wf]; assumption.
+Qed.
+Print Assumptions wf_generators_quad_ribbon_shape.
+
+(* generators assembled from parts: folding Mesh.Append over well-formed parts (Cube.UnweldedQuads,
+   Cylinder ...) and repeat.Mesh over any transform list (the repeat.* transform generators) *)
+Theorem wf_generators_composed :
+  (forall ms acc, wf acc -> Forall wf ms ->
+     match append_all acc ms with Ok rs => Forall wf rs | Declared => True | Crash => False end) /\
+  (forall ms acc, wf acc -> Forall wf ms -> Forall (fun m => topology m = topology acc) ms ->
+     exists r, append_all acc ms = Ok [r] /\ wf r /\ topology r = topology acc) /\
+  (forall pos base ts, wf base ->
+     match repeat_mesh pos base ts with Ok ms => Forall wf ms | Declared => True | Crash => False end).
+Proof. split; [exact append_all_wf|split; [exact append_all_ok|exact repeat_mesh_wf]]. Qed.
+Print Assumptions wf_generators_composed.
 
 (* non-vacuity: a mesh with an unreferenced vertex (3), duplicated vertices (0 and 4 carry the same
    values) and two attributes is well-formed; a history of six operations on it (weld, append with
